@@ -61,6 +61,10 @@ pub trait Vut<T: Elem>: Send {
     fn computed_version(&self) -> u32;
     /// The version recorded in the header (requested version + the entry point's layer versions).
     fn vec_version(&self) -> u32;
+    /// Stored-range scans through the mmap and the file-I/O source (compressed formats only).
+    fn stored_scans(&self, _from: usize, _to: usize) -> Option<(Vec<T>, Vec<T>)> {
+        None
+    }
     /// Runs every read path on `[from, to)`; Err((path, message)) on the first disagreement or panic.
     fn battery(&self, exp: &Expect<'_, T>, from: usize, to: usize, rng: &mut Rng, paths: &mut u64) -> Result<(), (String, String)>;
 }
@@ -590,6 +594,9 @@ macro_rules! compressed_vut {
                 }
                 fn holes(&self) -> Vec<usize> {
                     Vec::new()
+                }
+                fn stored_scans(&self, from: usize, to: usize) -> Option<(Vec<T>, Vec<T>)> {
+                    StoredFolds::<T>::stored_folds(self.v.as_ref().unwrap(), from, to)
                 }
                 fn battery(&self, exp: &Expect<'_, T>, from: usize, to: usize, rng: &mut Rng, paths: &mut u64) -> Result<(), (String, String)> {
                     let v = self.v.as_ref().unwrap();
